@@ -2,7 +2,10 @@
 (* Trace validation for NdnFib (producer side). *)
 EXTENDS NdnFib, Json, IOUtils, TLCExt
 
-Traces == ndJsonDeserialize(IOEnv.TRACE_FILE)
+\* the parsed trace file is kept in a TLC register: as a plain definition TLC re-evaluates (re-parses) it at every use
+TraceReg == 1000000
+ASSUME TLCSet(TraceReg, ndJsonDeserialize(IOEnv.TRACE_FILE))
+Traces == TLCGet(TraceReg)
 VARIABLES tid, l
 tvars == <<vars, tid, l>>
 
